@@ -104,8 +104,8 @@ theorem pass_without_constraint_runs (p : PassT) (c : Ctx) (s0 : Nat) (hp : p.pc
 /-! ### pass sequencing (`Silf::runGraphite`): every pass of a call runs once, the bidi step at most once -/
 
 /-- a font without a bidi step: a call of `Silf::runGraphite` is the plain run of its passes, each turning the stream as it wants -/
-theorem call_without_bidi_step (passes : Array PassT) (c : Ctx) (lo hi : Nat) (dobidi : Bool) (fuel : Nat) :
-    runPhase passes 0xFF c lo hi dobidi fuel = runRange passes c lo hi fuel := by
+theorem call_without_bidi_step (passes : Array PassT) (c : Ctx) (lo hi : Nat) (dobidi : Bool) (fuel aMirror : Nat) :
+    runPhase passes 0xFF c lo hi dobidi fuel aMirror = runRange passes c lo hi fuel := by
   unfold runPhase runRange
   simp
 
@@ -113,16 +113,16 @@ theorem call_without_bidi_step (passes : Array PassT) (c : Ctx) (lo hi : Nat) (d
 order, each once, none of them turning the stream on its own.  (The engine's range logic used to run passes twice for some bidi
 indices; repaired in /repo, fix ef5d3b4c.) -/
 theorem call_with_bidi_step (passes : Array PassT) (bPass : Nat) (c : Ctx) (lo hi : Nat) (dobidi : Bool) (fuel : Nat)
-    (hb : bPass ≠ 0xFF) (h1 : lo < bPass) (h2 : bPass ≤ hi) (c1 : Ctx)
+    (hb : bPass ≠ 0xFF) (h1 : lo < bPass) (h2 : bPass ≤ hi) (c1 : Ctx) (aMirror : Nat)
     (hfront : runPasses passes (c.seg.numGlyphs * 64) false (c.beginRange (c.seg.numGlyphs * 64)) lo bPass fuel = .ok (some c1)) :
-    runPhase passes bPass c lo hi dobidi fuel = runPasses passes (c.seg.numGlyphs * 64) false (bidiStep c1) bPass hi fuel := by
+    runPhase passes bPass c lo hi dobidi fuel aMirror = runPasses passes (c.seg.numGlyphs * 64) false (bidiStep c1 aMirror) bPass hi fuel := by
   unfold runPhase
   simp only []
   rw [if_pos ⟨hb, Or.inl ⟨h1, h2⟩⟩, hfront]
 
 /-- a call whose range does not contain the bidi step runs its passes as a font without one would -/
-theorem call_beside_bidi_step (passes : Array PassT) (bPass : Nat) (c : Ctx) (lo hi : Nat) (fuel : Nat)
-    (h : bPass ≤ lo ∨ hi < bPass) : runPhase passes bPass c lo hi false fuel = runRange passes c lo hi fuel := by
+theorem call_beside_bidi_step (passes : Array PassT) (bPass : Nat) (c : Ctx) (lo hi : Nat) (fuel aMirror : Nat)
+    (h : bPass ≤ lo ∨ hi < bPass) : runPhase passes bPass c lo hi false fuel aMirror = runRange passes c lo hi fuel := by
   unfold runPhase runRange
   simp only []
   rw [if_neg]
@@ -130,6 +130,21 @@ theorem call_beside_bidi_step (passes : Array PassT) (bPass : Nat) (c : Ctx) (lo
   rcases hc.2 with ⟨a, b⟩ | ⟨a, _⟩
   · omega
   · cases a
+
+/-- the bidi step on a font without a mirror attribute, or for a request that is not `gr_rtl | gr_nobidi`, only turns the stream: no glyph
+changes where no rule applies (the engine used to mirror through glyph attribute 0 at the start of such a request; repaired in /repo,
+fix ca344335) -/
+theorem bidi_step_without_mirroring (c : Ctx) (aMirror : Nat) (h : aMirror = 0 ∨ (turnStep c).seg.dir % 4 ≠ 3) : bidiStep c aMirror = turnStep c := by
+  unfold bidiStep
+  rw [if_neg]
+  intro hc
+  rcases h with h | h
+  · exact hc.1 h
+  · exact h hc.2
+
+theorem no_mirroring_without_a_mirror_attribute (font : Font) (c : Ctx) (h : font.aMirror = 0) : startMirror font c = c := by
+  unfold startMirror
+  rw [if_neg (fun hc => hc.2.2 h)]
 
 /-! ### non-vacuity: a two-rule pass over two columns – rule 0 = "a", rule 1 = "a b" (longer, so it comes first) -/
 def pass2 : PassT :=
